@@ -76,7 +76,7 @@ def tasks(tier):
         for rsh in ((W + 2, True), (1, False)) if tier == "quick" else c02.rhs_shapes(W):
             for dom in ("comb", "sync"):
                 ts.append(("lhs", W, k, name, rsh, dom))
-    for k in range(len(c02.PROGRAMS)):
+    for k in range(c02.n_programs(tier)):
         for dom in ("comb", "sync"):
             ts.append(("prog-sim", k, dom))
     chunk = 20
